@@ -1,5 +1,5 @@
 (* C09 — --verify accepts exactly the chains whose merkle roots and prev-hash links hold. Pinned statements only: each theorem is closed by `exact` of a lemma proved in theories/. *)
-From RBP Require Import Bytes Hashes Wire Block BlockP Render Index IndexP Model ModelP StoreP CsvP CbP.
+From RBP Require Import Bytes Hashes Wire Block BlockP Render Index IndexP Model ModelP StoreP CsvP CbP FrameP.
 From RBP Require Drive Merkle Utxo Stats OutProto Reader Published Misc.
 
 Theorem C09_merkle_loop_is_spec :
@@ -30,6 +30,26 @@ Theorem C09_btc_genesis_merkle :
   Merkle.merkle_root H2 [[59; 163; 237; 253; 122; 123; 18; 178; 122; 199; 44; 62; 103; 118; 143; 97; 127; 200; 27; 195; 136; 138; 81; 50; 58; 159; 184; 170; 75; 30; 94; 74]] = Ok (firstn 32 (skipn 36 btc_genesis_header)).
 Proof. exact btc_genesis_merkle. Qed.
 
+Theorem C09_bad_prev_rejected :
+  forall (c : coin) (idx : hmap) (b : eblock) (h : N) (p : irec), h <> 0 -> hm_get (h - 1) idx = Some p -> h_prev (b_header (y_blk b)) <> r_hash p -> Merkle.merkle_root H2 (map x_id (y_txs b)) = Ok (h_merkle (b_header (y_blk b))) -> verify_block c idx b h = Some (FErr EPrev).
+Proof. exact bad_prev_rejected. Qed.
+
+Theorem C09_bad_genesis_rejected :
+  forall (c : coin) (idx : hmap) (b : eblock), y_hash b <> genesis c -> Merkle.merkle_root H2 (map x_id (y_txs b)) = Ok (h_merkle (b_header (y_blk b))) -> verify_block c idx b 0 = Some (FErr EGenesis).
+Proof. exact bad_genesis_rejected. Qed.
+
+Theorem C09_changed_root_rejected :
+  forall (c : coin) (idx : hmap) (b : eblock) (h : N) (r : bytes), Merkle.merkle_root H2 (map x_id (y_txs b)) = Ok r -> r <> h_merkle (b_header (y_blk b)) -> verify_block c idx b h <> None.
+Proof. exact changed_root_rejected. Qed.
+
+Theorem C09_witness_not_covered :
+  forall (c : coin) (idx : hmap) (b b' : eblock) (h : N), map x_id (y_txs b) = map x_id (y_txs b') -> b_header (y_blk b) = b_header (y_blk b') -> y_hash b = y_hash b' -> verify_block c idx b h = verify_block c idx b' h.
+Proof. exact verify_depends_on_txids_only. Qed.
+
+Theorem C09_witness_frame :
+  forall (t : atx) (w : option (list (cs_width * list (cs_width * bytes)))), parsed_tx (with_witness t w) = parsed_tx t /\ ser_tx_stripped (with_witness t w) = ser_tx_stripped t /\ txid (parsed_tx (with_witness t w)) = txid (parsed_tx t).
+Proof. exact witness_frame. Qed.
+
 Print Assumptions C09_merkle_loop_is_spec.
 Print Assumptions C09_verify_iff.
 Print Assumptions C09_merkle_checked_first.
@@ -37,3 +57,8 @@ Print Assumptions C09_stops_at_first_failure.
 Print Assumptions C09_accepts_consistent_chain.
 Print Assumptions C09_btc_genesis_hash.
 Print Assumptions C09_btc_genesis_merkle.
+Print Assumptions C09_bad_prev_rejected.
+Print Assumptions C09_bad_genesis_rejected.
+Print Assumptions C09_changed_root_rejected.
+Print Assumptions C09_witness_not_covered.
+Print Assumptions C09_witness_frame.
